@@ -189,3 +189,75 @@ func NoInTexts(f func(key, src string)) {
 		}
 	}
 }
+
+// SpellingTexts enumerates the "spelling lattice" of contextual positions where
+// a token's TEXT and its cooked VALUE can be confused: get/set in object
+// literals, labels versus string statements, names after a dot, regexp flags.
+// Each contextual word is written as a plain identifier, an identifier with
+// unicode escapes, a string literal (both quotes, with and without escapes)
+// and a numeric literal, followed by every class of next token. Only the
+// IdentifierName spellings may act as the contextual keyword; the reference
+// recogniser decides which texts are programs.
+func SpellingTexts(f func(key, src string)) {
+	firsts := []string{"get", "set", `get`, `set`, `"get"`, `'get'`, `"set"`, `'set'`, `"g\x65t"`, `'set'`, "\"get\\\n\"", "a", `"a"`, "1", "0x1", "if", "true", `"if"`}
+	follows := []string{"x", `"x"`, `'x'`, "1", "if", "get", "set", `"get"`, ": 1", ": x", ", a : 1", "", "( ) { }", "( v ) { }", "x ( ) { }", "x ( ) { return 1 }", "x ( v ) { }", `"x" ( ) { }`, `'x' ( v ) { }`,
+		"1 ( ) { return 1 }", "if ( ) { }", "get ( ) { }", "set ( v ) { }", `"get" ( ) { }`, ": function ( ) { }", "x : 1", "x , y : 1", ": 1 , get x ( ) { }", `x ( ) { }`}
+	wraps := []string{"x = { E } ;", "( { E } )", "x = { a : 1 , E } ;", "f ( { E } , 1 ) ;"}
+	for fi, a := range firsts {
+		for gi, b := range follows {
+			for wi, w := range wraps {
+				f("obj/"+itoa(fi)+"/"+itoa(gi)+"/"+itoa(wi), strings.ReplaceAll(w, "E", strings.TrimSpace(a+" "+b)))
+			}
+		}
+	}
+	// labels, jump targets, dotted names, regexp flags, declared names
+	words := []string{"L", `L`, `"L"`, `'L'`, `"L"`, "1", "get", "if", `if`[:0] + "l2", "true", `true`[:0] + "t2"}
+	ctxs := []string{"W : ;", "W : x ;", "W : for ( ; ; ) break L ;", "L : for ( ; ; ) break W ;", "L : for ( ; ; ) continue W ;", "L : W : for ( ; ; ) continue L ;",
+		"a . W ;", "a . W ( ) ;", "a . W = 1 ;", "x = a . b . W ;", "x = /a/W ;", "x = /a/ W ;", "x = /a/g W ;", "W ;", "W\nx ;", "x = W ;", "var W ;", "var W = 1 ;",
+		"function W ( ) { }", "function f ( W ) { }", "try { } catch ( W ) { }", "for ( var W in o ) ;", "x = { W : 1 } ;", "x = { get W ( ) { } } ;", "W : W : ;", "W : { W : ; }"}
+	for wi, w := range words {
+		for ci, c := range ctxs {
+			f("ctx/"+itoa(wi)+"/"+itoa(ci), strings.ReplaceAll(c, "W", w))
+		}
+	}
+}
+
+// CommentTexts enumerates comment contents - including the tool directives
+// `# sourceMappingURL=` / `@ sourceMappingURL=` / `# sourceURL=` with data:
+// URLs, base64 markers and payloads - as line and block comments at the start,
+// in the middle and on the last line of a valid program. A comment never
+// changes the tree and never makes a valid program invalid.
+func CommentTexts(maxPieces int, f func(key, src string)) {
+	pieces := []string{"# sourceMappingURL=", "@ sourceMappingURL=", "# sourceURL=", "data:application/json", "data:text/plain", ";base64", ";charset=utf-8", ",",
+		"AAAA", "e30=", "eyJ2ZXJzaW9uIjozfQ==", "{}", "{\"version\":3}", "foo.map", " ", "!"}
+	idx := []int{}
+	var rec func()
+	rec = func() {
+		var sb strings.Builder
+		var kb strings.Builder
+		for _, i := range idx {
+			sb.WriteString(pieces[i])
+			kb.WriteByte("0123456789abcdef"[i])
+		}
+		body, key := sb.String(), kb.String()
+		f("last/"+key, "x = 1 ;\n//"+body)
+		f("lastnl/"+key, "x = 1 ;\n//"+body+"\n")
+		if len(idx) <= maxPieces-1 {
+			f("only/"+key, "//"+body)
+			f("mid/"+key, "x = 1 ;\n//"+body+"\ny = 2 ;")
+			f("first/"+key, "//"+body+"\nx = 1 ;")
+			f("block/"+key, "x = 1 ;\n/*"+body+"*/")
+			f("inline/"+key, "x = 1 ; //"+body)
+			f("crlf/"+key, "x = 1 ;\r\n//"+body+"\r\n")
+		}
+		if len(idx) == maxPieces {
+			return
+		}
+		for i := range pieces {
+			idx = append(idx, i)
+			rec()
+			idx = idx[:len(idx)-1]
+		}
+	}
+	rec()
+}
